@@ -28,12 +28,14 @@ Pos == { [p |-> 1, sec |-> "Tabulation", key |-> "nr", lit |-> "L9"],
          [p |-> 6, sec |-> "Species", key |-> "Al.lattice_constant", lit |-> "L3"],
          [p |-> 7, sec |-> "Table-Form:tf", key |-> "y", lit |-> "Ly"],
          [p |-> 8, sec |-> "EAM-Embed", key |-> "Al", lit |-> "L9"],
-         [p |-> 9, sec |-> "EAM-Density", key |-> "Al", lit |-> "L03"] }
+         [p |-> 9, sec |-> "EAM-Density", key |-> "Al", lit |-> "L03"],
+         \* the tabulation target itself (the replay uses documented synonym spellings too: lammps_eam_alloy, LAMMPS_eam_alloy)
+         [p |-> 10, sec |-> "Tabulation", key |-> "target", lit |-> "Ltarget"] }
 PosIds == {x.p : x \in Pos}
 At(p) == CHOOSE x \in Pos : x.p = p
 SectionsOfFile == {x.sec : x \in Pos}
 \* keys a section owns in the base file (besides the positions, fixed context keys that hold no liftable literal)
-ContextKeys(s) == CASE s = "Tabulation" -> {"target", "nrho"}     \* deliberately NOT cutoff, dr: the defaults apply
+ContextKeys(s) == CASE s = "Tabulation" -> {"nrho"}     \* deliberately NOT cutoff, dr: the defaults apply
                     [] s = "Table-Form:tf" -> {"x"}
                     [] OTHER -> {}
 OwnKeys(s) == {x.key : x \in {y \in Pos : y.sec = s}} \cup ContextKeys(s)
@@ -50,10 +52,10 @@ OwnKeys(s) == {x.key : x \in {y \in Pos : y.sec = s}} \cup ContextKeys(s)
 \*            positions refer to such a position by ${SECTION:KEY} where they can, else to a plain variable
 Schemes == {"plain", "keylike", "shared", "secref", "chained", "ownkey"}
 KeyLike(p) == CASE p = 1 -> "A-B" [] p = 2 -> "x" [] p = 3 -> "nr" [] p = 4 -> "cutoff" [] p = 5 -> "target"
-                [] p = 6 -> "y" [] p = 7 -> "dr" [] p = 8 -> "drho" [] p = 9 -> "interpolation"
+                [] p = 6 -> "y" [] p = 7 -> "dr" [] p = 8 -> "drho" [] p = 9 -> "interpolation" [] p = 10 -> "lattice_type"
 Partner(p) == \* another position with the same literal in a different section (for ${SECTION:KEY})
   \* only an option whose WHOLE value is the literal can be referred to (positions 1, 2, 6, 7)
-  LET c == {q \in PosIds : q # p /\ At(q).lit = At(p).lit /\ At(q).sec # At(p).sec /\ q \in {1, 2, 6, 7}} IN IF c = {} THEN 0 ELSE Min(c)
+  LET c == {q \in PosIds : q # p /\ At(q).lit = At(p).lit /\ At(q).sec # At(p).sec /\ q \in {1, 2, 6, 7, 10}} IN IF c = {} THEN 0 ELSE Min(c)
 VarName(scheme, p) == CASE scheme = "plain" -> "v" \o ToString(p)
                         [] scheme = "keylike" -> KeyLike(p)
                         [] scheme = "shared" -> At(p).lit
